@@ -1,48 +1,87 @@
-// C03: comparisons between wide_integers of different (multi-word) widths
+// C03: comparisons between wide_integers of different types
+// (single-word and multi-word storage, different widths, signed and unsigned narrowest types)
 #include "vh.h"
 #include <sstream>
 using namespace cnl;
 using namespace vh;
 static const bool vh_strict_on = (vh::strict = true);
 
-template<int D>
-std::string dec(wide_integer<D, int> const& v)
+template<class W>
+std::string dec(W const& v)
 {
     std::ostringstream o;
     o << v;
     return o.str();
 }
 
-template<int DL, int DR>
-void wcmp(Rng& rng)
+// storage width of wide_integer<D, N>
+template<class W>
+constexpr int storage_width = cnl::_impl::width<cnl::_impl::rep_of_t<W>>;
+
+// boundary lattice of wide_integer<D, N> around its own limits and around the digit count / storage width
+// (OD, OW) of the other operand: 2^k + 5, 2^k - 1, -2^k + 5 for k at and next to each of them
+template<int D, class N, int OD, int OW>
+std::vector<wide_integer<D, N>> lattice(Rng& rng)
 {
-    using A = wide_integer<DL, int>;
-    using B = wide_integer<DR, int>;
-    std::vector<A> av;
-    std::vector<B> bv;
-    for (int s : {5, -5, 0, 1, -1, 123456789}) {
-        av.push_back(A{s});
-        bv.push_back(B{s});
-    }
-    for (int k : {31, 63, 64, 100, DL - 2, DL - 1}) {
-        if (k > 0 && k < DL) {
-            av.push_back(A{(A{1} << k) + A{5}});
-            av.push_back(A{-(A{1} << k) + A{5}});
+    using A = wide_integer<D, N>;
+    constexpr bool sgn = cnl::numbers::signedness_v<N>;
+    constexpr int W = storage_width<A>;
+    std::vector<A> v;
+    for (int s : {5, 0, 1, 123, 123456789})
+        if (W > 32 || (long long)s < (1ll << (W - 1)))
+            v.push_back(A{s});
+    if constexpr (sgn)
+        for (int s : {-5, -1, -6})
+            v.push_back(A{s});
+    for (int k : {31, 63, 64, 100, D - 2, D - 1, D, W - 2, OD - 1, OD, OD + 1, OD + 31, OW - 2, OW - 1, OW, OW + 1, OW + 31}) {
+        // the value must fit the storage of A (signed: k <= W-2 for 2^k + 5)
+        if (k > 0 && k < W - (sgn ? 1 : 0)) {
+            v.push_back(A{(A{1} << k) + A{5}});
+            v.push_back(A{(A{1} << k) - A{1}});
+            if constexpr (sgn)
+                v.push_back(A{-(A{1} << k) + A{5}});
         }
     }
-    for (int k : {31, 63, 64, 100, DL - 2, DL - 1, DL, DL + 1, DL + 31, DR - 2, DR - 1}) {
-        if (k > 0 && k < DR) {
-            bv.push_back(B{(B{1} << k) + B{5}});
-            bv.push_back(B{-(B{1} << k) + B{5}});
-            bv.push_back(B{(B{1} << k) - B{1}});
+    // random values of random magnitude, built 32 bits at a time
+    int const nrand = 6 * scale_from_env();
+    for (int i = 0; i < nrand; ++i) {
+        int const bits = 1 + rng.below(W - (sgn ? 2 : 1));
+        if constexpr (W <= 128) {
+            // built-in storage: no arithmetic on the narrow type (it would be the harness's own overflow)
+            using R = cnl::_impl::rep_of_t<A>;
+            U raw = rng.next128();
+            raw = bits >= 128 ? raw : (raw & ((U(1) << bits) - 1));
+            bool const neg = sgn && (rng.next() & 1);
+            v.push_back(A{neg ? R(-I(raw)) : R(raw)});
+        } else {
+            A x{0};
+            for (int b = 0; b < bits; b += 16)
+                x = A{(x << 16) + A{int(rng.next() & 0xffff)}};
+            // keep `bits` low bits
+            int const total = ((bits + 15) / 16) * 16;
+            if (total > bits)
+                x = A{x >> (total - bits)};
+            if (sgn && (rng.next() & 1))
+                x = A{-x};
+            v.push_back(x);
         }
     }
-    (void)rng;
+    return v;
+}
+
+template<int DL, class NL, int DR, class NR>
+void wcmpt(Rng& rng)
+{
+    using A = wide_integer<DL, NL>;
+    using B = wide_integer<DR, NR>;
+    std::vector<A> av = lattice<DL, NL, DR, storage_width<B>>(rng);
+    std::vector<B> bv = lattice<DR, NR, DL, storage_width<A>>(rng);
+    std::string const tl = tn<NL>(), tr = tn<NR>();
     for (A const& a : av)
         for (B const& b : bv) {
 #define WC(NAME, EXPR) \
     { \
-        printf("C03 wcmp " NAME " %d %d %s %s => ", DL, DR, dec<DL>(a).c_str(), dec<DR>(b).c_str()); \
+        printf("C03 wcmpt " NAME " %d %s %d %s %s %s => ", DL, tl.c_str(), DR, tr.c_str(), dec(a).c_str(), dec(b).c_str()); \
         VH_RUN(EXPR, print_tv) \
     }
             WC("lt", a < b)
@@ -52,4 +91,10 @@ void wcmp(Rng& rng)
             WC("eq", a == b)
             WC("ne", a != b)
         }
+}
+
+template<int DL, int DR>
+void wcmp(Rng& rng)
+{
+    wcmpt<DL, int, DR, int>(rng);
 }
